@@ -74,6 +74,7 @@ func (a lin) String() string {
 }
 
 type prover struct {
+	ctx []Fact // facts at the obligation being proved (set by at)
 	nonneg map[string]bool // terms known ≥ 0 (lengths, unsigned values)
 	memo   map[ssa.Value]lin
 	extra  []lin // facts discovered while normalising (contracts)
@@ -164,6 +165,20 @@ func isByteSlice(t types.Type) bool {
 // norm normalises an integer SSA value.
 func (p *prover) norm(v ssa.Value) lin {
 	v = strip(v)
+	// a merged value is the one value the facts at the obligation leave possible
+	if phi, ok := v.(*ssa.Phi); ok && p.ctx != nil {
+		loopCarried := false
+		for _, pred := range phi.Block().Preds {
+			if phi.Block().Dominates(pred) {
+				loopCarried = true // its operands are defined in terms of itself
+			}
+		}
+		if !loopCarried {
+			if rv := refine(phi, p.ctx); rv != ssa.Value(phi) {
+				v = strip(rv)
+			}
+		}
+	}
 	if l, ok := p.memo[v]; ok {
 		return l
 	}
@@ -518,3 +533,12 @@ func (p *prover) factsLinAt(in ssa.Instruction) []lin {
 
 // verifiedMinFuncs: repo functions whose bodies a rule has verified to return the smaller argument.
 var verifiedMinFuncs = map[string]bool{}
+
+// at sets the program point of the obligation: merged values are resolved by the facts there.
+func (p *prover) at(in ssa.Instruction) *prover {
+	p.ctx = factsAt(in)
+	if p.ctx == nil {
+		p.ctx = []Fact{}
+	}
+	return p
+}
